@@ -33,7 +33,7 @@ META = {
             "deep nesting in child processes): panics, aborts and hangs inside quick-xml, plist, serde and std on arbitrary "
             "bytes; stack depth; allocation failure. TypeInvariant entries of the catalogue are written arguments, not theorems.",
 }
-COQ_TARGETS = ["Props/C03.vo", "Model/Sites.vo"]
+COQ_TARGETS = ["Props/C03.vo", "Model/Sites.vo", "Run/C03.vo"]
 PROPS_FILES = ["C03"]
 TRUSTED = [
     "site models Model/Totality.v hand-written from src/{util,layer,font,datastore,fontinfo,upconversion,serde_xml_plist,"
@@ -44,6 +44,9 @@ TRUSTED = [
     "RwLock poisoning, fmt::Write for String, fixed-size arrays, str::find offsets; L1: plist writer layout)",
     "L1 hypotheses of two theorems: quick-xml buffer positions are monotone and bounded (C03_parse_lib_slice); decimal "
     "rendering of the counter is injective and free of control characters (C03_make_unique)",
+    "the models of user_name_to_file_name, of the layer list and of the glyph map / contents index are additionally run in Coq "
+    "(vm_compute) on the inputs and operation histories the harness ran on norad (returned file name or documented panic; "
+    "error variant of every operation, final state, panic or not) - every difference is a disagreement",
     "harness/src/c03.rs, c03_gen.rs (generators, catch_unwind, watchdog, child processes); Coq 8.16.1 kernel, vm_compute; no axioms",
 ]
 ASSUMPTIONS = [
@@ -120,6 +123,8 @@ def classify(rec, inv, known_ids):
     site = site_of(inv, rec.get("loc"))
     for t in rec.get("tags", []):
         if t in CLASSES and site.startswith(CLASSES[t]):
+            if t == "ds-doctype-in-text" and not ("/src/de/" in site and "unreachable" in (rec.get("msg") or "")):
+                continue
             return (t if t in known_ids else None), site, t
     return None, site, None
 
@@ -182,6 +187,53 @@ def collect(ctx, out, inv, handle, tot, entries, tags, per_stream, counters, sam
                                        "demand": "no abort (inputs of the generated streams nest at most %d deep)" % DEPTH_CLASS})
             elif k == "restart":
                 tot["cases"] += max(0, rec.get("stopped_at", 0) - rec.get("from", 0))
+
+
+def model_check(ctx, sh, out, built):
+    """correspondence: the site models of Model/Totality.v (user_name_to_file_name, the layer
+    list, the glyph map / contents index) run in Coq on the inputs / histories the harness ran on
+    norad; every difference is a disagreement"""
+    from driver import coq_values, parse_term
+    rc, o = sh([ctx.harness, "c03", "--tier", ctx.tier, "--seed", str(ctx.seed), "--out", out, "corr"], timeout=1200)
+    if rc != 0 or "CORR done" not in o:
+        ctx.disagreements.append({"what": "harness c03 corr failed", "output": o[-800:]})
+        return 0
+    spec = [("u2f", "corr_u2f.txt", "run_u2f", "u2f_case", 60 if not ctx.thorough() else 100, 480 if not ctx.thorough() else 6000),
+            ("lc", "corr_lc.txt", "run_lc", "list lcop", 500, 10 ** 9),
+            ("lay", "corr_lay.txt", "run_lay", "list layop", 500, 10 ** 9)]
+    files = {}
+    total = 0
+    for tag, fn, fun, ty, per, cap in spec:
+        lines = [l for l in open(os.path.join(out, fn)).read().split("\n") if l.strip()][:cap]
+        total += len(lines)
+        for i in range(0, len(lines), per):
+            vf = os.path.join(out, "corr_%s_%d.v" % (tag, i // per))
+            with open(vf, "w") as f:
+                f.write("Require Import Norad.Run.RunBase Norad.Model.Totality Norad.Run.C03.\nOpen Scope N_scope.\n"
+                        "Set Printing Width 100000. Set Printing Depth 1000000.\n")
+                f.write("Definition cases : list ((%s) * tm) := [\n%s ].\n" % (ty, ";\n".join(lines[i:i + per])))
+                f.write("Eval vm_compute in mismatches %s cases.\n" % fun)
+            files[vf] = (tag, lines[i:i + per])
+    if not built:
+        ctx.disagreements.append({"what": "Coq development does not build; site models not evaluated"})
+        return 0
+    res = ctx.coq_eval_many(list(files), timeout=1200)
+    okshards = 0
+    for vf, (rc, o) in sorted(res.items()):
+        tag, lines = files[vf]
+        vals = coq_values(o) if rc == 0 else []
+        if rc != 0 or len(vals) != 1:
+            ctx.disagreements.append({"what": "model shard failed to evaluate", "shard": os.path.basename(vf), "output": o[-600:]})
+            continue
+        okshards += 1
+        for item in parse_term(vals[0]):
+            idx, m = item
+            ctx.disagreements.append({"what": "site model and implementation differ (%s)" % tag, "case_and_observed": lines[idx][:1500],
+                                      "model": str(m)[:800]})
+    ctx.obligation("correspondence:C03 site models vs implementation (%d shards, %d cases)" % (len(files), total),
+                   okshards == len(files) and not any("site model" in d.get("what", "") for d in ctx.disagreements),
+                   "model and implementation differ")
+    return total
 
 
 def shrink_api(ctx, sh, out, v, inv):
@@ -337,6 +389,7 @@ def run(ctx, known, built):
         best = min(shr, key=lambda v: len(v.get("shrunk_history") or v.get("input") or ""))
         ctx.violations.remove(best)
         ctx.violations.insert(0, best)
+    ncorr = model_check(ctx, sh, out, built)
     for fid, n in hits.items():
         ctx.known_hits[fid] = ctx.known_hits.get(fid, 0) + n
     ctx.obligation("search:C03 no panic / abort / hang outside the documented panics and the listed classes "
@@ -368,7 +421,8 @@ def run(ctx, known, built):
         "site_inventory": {"sites": nsites, "by_kind": kinds,
                            "not_in_catalogue": getattr(ctx, "c03_new_sites", [])[:20],
                            "no_longer_in_source": getattr(ctx, "c03_gone_sites", [])[:20]},
-        "traces_validated_against_impl": 0,
+        "traces_validated_against_impl": ncorr,
+        "model_cases": ncorr,
     })
     ctx.samples += samples or [{"note": "no panic record in this run"}]
     if stale:
